@@ -1,0 +1,13 @@
+//go:build verif
+
+// Contracts for the deductive verifier in /verif (comment-only file; see /verif/DESIGN.md).
+
+package cache
+
+// The bounded cache is used through these two operations by the resolver; they are called by (empty)
+// contract there - the cache's own list/map manipulation is not verified.
+//@ func (*BoundedCache[K, V]).Set
+//@   noinline
+
+//@ func (*BoundedCache[K, V]).Get
+//@   noinline
